@@ -109,7 +109,7 @@ class Gen:
     def vec(self, d):
         r = self.rng
         x = r.random()
-        if x > 0.9 and self.opts.get("near_basis", True):
+        if x > 0.9 and self.opts.get("near_basis", False):
             # a pure state a small rotation away from a basis state: it must NOT be taken for the basis state
             v = ref.haar_vec(r, d) * float(10 ** r.uniform(-4, -2.5))
             v[int(r.integers(0, d))] += 1.0
